@@ -241,6 +241,15 @@ EvLoad(ev) ==
        /\ obs' = ObsOf(ev, IsStrict(ev.a) => (conf /\ srcOK))
        /\ UNCHANGED <<vtx, inflight, trxu>>
 
+\* two nodes that were offered the same vertices hold the same ledger and nothing is left parked
+EvCompare(ev) ==
+    LET a == book[ev.n] b == book[ev.m]
+        conf == /\ a.live = b.live /\ a.edges = b.edges /\ a.stored = b.stored /\ a.ck = b.ck
+                /\ a.index = b.index /\ a.gen = b.gen /\ a.loaded = b.loaded
+                /\ a.parked = <<>> /\ b.parked = <<>>
+    IN /\ obs' = [GoodObs EXCEPT !.a = ev.a, !.conf = IsStrict(ev.a) => conf]
+       /\ UNCHANGED <<book, vtx, inflight, trxu>>
+
 EvWedged(ev) ==
     /\ obs' = [GoodObs EXCEPT !.a = "Wedged", !.conf = FALSE]
     /\ UNCHANGED <<book, vtx, inflight, trxu>>
@@ -263,6 +272,7 @@ TNext ==
          [] ev.a = "ReadTrx"       -> EvReadTrx(ev)
          [] ev.a = "ReadVertex"    -> EvReadVertex(ev)
          [] ev.a = "Load"          -> EvLoad(ev)
+         [] ev.a = "Compare"       -> EvCompare(ev)
          [] ev.a = "Wedged"        -> EvWedged(ev)
 
 TSpec == TInit /\ [][TNext]_tvars
